@@ -96,6 +96,11 @@ func (h *inFlightRequestsHandler) onOutgoingFrameEnqueued(f *frame.Frame) (InFli
 			return inFlight, nil
 		}
 	}
+	if managedStreamId {
+		// the request was refused: give the borrowed stream id back
+		f.Header.StreamId = ManagedStreamId
+		_ = h.releaseStreamId(streamId)
+	}
 	return nil, err
 }
 
